@@ -33,6 +33,9 @@ import (
 const stepTimeout = 20 * time.Second
 
 var stats = map[string]int{}
+
+// rescan batch size of asyncImport (the check reads it from the source and passes -batch)
+var batchSize = 1000
 var statMu sync.Mutex
 
 func bump(k string, n int) { statMu.Lock(); stats[k] += n; statMu.Unlock() }
@@ -582,7 +585,7 @@ func runWorkers(idx []string, j int) []byte {
 			defer wg.Done()
 			sem <- struct{}{}
 			defer func() { <-sem }()
-			cmd := exec.Command("timeout", "300", self, "-worker", "-list", a)
+			cmd := exec.Command("timeout", "300", self, "-worker", "-batch", strconv.Itoa(batchSize), "-list", a)
 			var so, se bytes.Buffer
 			cmd.Stdout, cmd.Stderr = &so, &se
 			err := cmd.Run()
@@ -638,6 +641,9 @@ func main() {
 	worker := flag.Bool("worker", false, "internal")
 	list := flag.String("list", "", "internal: comma separated indexes, L prefix = long")
 	scen := flag.Int("scenario", 0, "run directed scenario k")
+	nbounce := flag.Int("bounce", 0, "bounce histories (bounce.go): short chains")
+	nblong := flag.Int("blong", 0, "bounce histories on chains that need two rescan batches")
+	flag.IntVar(&batchSize, "batch", batchSize, "rescan batch size of the code under test")
 	flag.Parse()
 	if *scen > 0 {
 		sim.Init(sim.Params{CoinbaseMaturity: 4, MinFrozenPeriod: 2, GapLimit: 20})
@@ -665,7 +671,7 @@ func main() {
 				continue
 			}
 			long := strings.HasPrefix(a, "L")
-			n, _ := strconv.Atoi(strings.TrimPrefix(a, "L"))
+			n, _ := strconv.Atoi(strings.TrimLeft(a, "LBFZ"))
 			done := make(chan struct{})
 			go func() {
 				select {
@@ -676,7 +682,16 @@ func main() {
 					os.Exit(3)
 				}
 			}()
-			runOne(seed, n, w, long)
+			switch {
+			case strings.HasPrefix(a, "BF"):
+				runBounce(seed, n, w, "first")
+			case strings.HasPrefix(a, "BZ"):
+				runBounce(seed, n, w, "last")
+			case strings.HasPrefix(a, "B"):
+				runBounce(seed, n, w, "short")
+			default:
+				runOne(seed, n, w, long)
+			}
 			close(done)
 			w.Flush()
 		}
@@ -691,6 +706,20 @@ func main() {
 	var idx []string
 	for i := 0; i < *nlong; i++ {
 		idx = append(idx, fmt.Sprintf("L%d", 500000+*first+i))
+	}
+	// bounce histories: long ones one per process (BF: bounce at the first of two batches, BZ: at the last),
+	// short ones in chunks
+	for i := 0; i < *nblong; i++ {
+		idx = append(idx, fmt.Sprintf("%s%d", []string{"BF", "BZ"}[(*first+i)%2], 700000+*first+i))
+	}
+	if bchunk := (*nbounce + *workers - 1) / *workers; bchunk > 0 {
+		for i := 0; i < *nbounce; i += bchunk {
+			var l []string
+			for k := i; k < i+bchunk && k < *nbounce; k++ {
+				l = append(l, fmt.Sprintf("B%d", 600000+*first+k))
+			}
+			idx = append(idx, strings.Join(l, ","))
+		}
 	}
 	chunk := (*count + *workers*2 - 1) / (*workers * 2)
 	if chunk < 1 {
